@@ -76,6 +76,9 @@ class TxFetcher:
                 computed = hash256(raw)[::-1].hex()
             if computed != tx_id:
                 raise RuntimeError(f"server lied: {computed} vs {tx_id}")
+            # the parsed transaction itself has to hash to the requested id
+            if tx.id() != tx_id:
+                raise RuntimeError(f"server lied: {tx.id()} vs {tx_id}")
             cls.cache[tx_id] = tx
         cls.cache[tx_id].network = network
         return cls.cache[tx_id]
